@@ -150,7 +150,7 @@ def run_tlc(module, cfg, workdir, *, workers=16, timeout=600, dump=None, dot=Non
     java = ["java", "-XX:+UseParallelGC", "-Xmx%s" % heap, "-DTLA-Library=%s" % libs]
     if deque:
         java.append("-Dtlc2.tool.queue.IStateQueue=StateDeque")
-    cmd = java + ["-cp", JAR, "tlc2.TLC", "-workers", str(workers), "-metadir", meta,
+    cmd = java + ["-cp", JAR + os.pathsep + "/opt/veriftools/tla/CommunityModules-deps.jar", "tlc2.TLC", "-workers", str(workers), "-metadir", meta,
                   "-noGenerateSpecTE", "-config", cfg_path]
     if deadlock is False:
         cmd.append("-deadlock")          # -deadlock = do NOT check for deadlock
